@@ -479,6 +479,8 @@ func (w *World) Exec(st *Step) (res StepResult) {
 			w.gen.be.Cache.Snapshot.Purge()
 			w.fault("snapshot_cache_purged")
 		}
+	case "revision":
+		// performed by the oracle that owns the step (ysonMonitor)
 	case "rebuild":
 		// the oracle that owns this step does the work (see snapshotMonitor)
 	case "admin":
